@@ -60,6 +60,9 @@ def cond_pool(me, other, Xt):
         (("exists", VT, e(vT)), 0),
         (("or", ola, NOT(e(o2))), 0),
         (("and", ("le", ("i", 1), ("i", 2)), ("or", la, ola)), 0),
+        # disjunctive normal forms with a REPEATED disjunct (Dnf does not merge them)
+        (("or", NOT(la), ("implies", la, ola)), 0),
+        (("or", ("and", la, e(Xt)), ("and", e(Xt), la)), 0),
     ]
 
 
